@@ -1,7 +1,7 @@
 from common import *
 from bundlelib import *
 
-THEOREMS = ['C03.read_write', 'C03.variants_row_major', 'C03.fixpoint', 'C03.possibleKeyAt_indexInPossibleKeys']
+THEOREMS = ['C03.read_write', 'C03.read_write_b2', 'C03.index_is_row_major', 'C03.possibleKeyAt_index', 'C03.index_possibleKeyAt', 'C03.index_injective', 'C03.offsets_accounting']
 TRUSTED = ['Go stdlib net/url (Parse/String facts supplied by the harness oracle op oracle.burl), crypto/x509 (certificate parse), regexp, strconv (modelled, compared)']
 ASSUMPTIONS = ['format constraints the reader enforces and the writer does not (DESIGN 5, C03 D): exchange URLs without fragment/userinfo, valid UTF-8, re-parsing to themselves; status 100..999; ASCII header names not starting with ":" and distinct after lower-casing; ASCII values; b1 has a primary URL']
 RULE = ('bundles: versions b1/b2 x 0..4 exchanges x URL shapes (ports, escapes, queries, relative) x header maps x status 100..999 x body lengths around 23/24, 255/256, 65535/65536 x optional primary/manifest/signatures x b1 Variants sets '
@@ -27,7 +27,7 @@ def gen_bundles(rng, w, thorough):
         for _ in range(120 if not thorough else 4000):
             out.append(rand_bundle(rng, ver, w))
         # body length classes
-        for blen in [0, 23, 24, 255, 256, 65535, 65536] + ([70000] if thorough else []):
+        for blen in [0, 23, 24, 255, 256, 65535, 65536, 65537, 70000] + ([131072, 200001] if thorough else []):
             st, hs, body = rand_resp(rng, blen)
             out.append(bundle(ver, b'https://example.com/', None, None, [exch(b'https://example.com/', st, hs, body), exch(b'https://example.com/x', 200, [], b'')]))
         # many exchanges (index map head classes)
@@ -69,6 +69,15 @@ def gen_bundles(rng, w, thorough):
             add(hs, b'variants', vh); add(hs, b'variant-key', b';'.join(c0) + b', ' + b';'.join(c1))
             merged = exch(b'https://example.com/v', 200, hs, b'merged')
             out.append(bundle('b1', b'https://example.com/v', None, None, [merged] + [e for e, c in grp[2:]]))
+            # the same with the two keys (and the Variants axes) given as repeated header field values
+            hs2 = []
+            for part in vh.split(b', '): add(hs2, b'variants', part)
+            add(hs2, b'variant-key', b';'.join(c0)); add(hs2, b'variant-key', b';'.join(c1))
+            merged2 = exch(b'https://example.com/v', 200, hs2, b'merged2')
+            out.append(bundle('b1', b'https://example.com/v', None, None, [merged2] + [e for e, c in grp[2:]]))       # complete
+            out.append(bundle('b1', b'https://example.com/v', None, None, [merged2] + [e for e, c in grp[1:]]))       # overlaps on c1: refused
+            out.append(bundle('b1', b'https://example.com/v', None, None, [e for e, c in grp[1:]] + [merged2]))       # same, other order
+            out.append(bundle('b1', b'https://example.com/v', None, None, [merged2] + [e for e, c in grp[3:]]))       # incomplete when > 3 keys
     # malformed Variants / Variant-Key
     for vh, vk in [(b'', b'en'), (b'A;1;2', b''), (b'A', b'1'), (b'A;1;2', b'3'), (b'A;1;2', b'1;2'), (b'"A";"1";"2"', b'"1"'), (b'A;1;2, B', b'1'), (b'A;' + b';'.join(b'v%d' % i for i in range(101)) + b', B;' + b';'.join(b'w%d' % i for i in range(101)), b'v1;w1')]:
         hs1, hs2 = [], []
